@@ -647,7 +647,9 @@ func (root *Root) resolveField(
 					nv = av.Value
 				}
 				name, _ := nv.(string)
-				t = root.GetType(name)
+				// Only a type can be asked for, the name of a directive is
+				// not the name of a type.
+				t = root.types.get(name)
 				if t != nil {
 					fv, ea2 = root.resolve(t, vars, field, root.GetType("__Type"), depth)
 					ea = append(ea, ea2...)
